@@ -2,9 +2,10 @@
 use crate::infra::PropDef;
 
 pub mod c04;
+pub mod c05;
 
 pub fn all() -> &'static [PropDef] {
-    static ALL: &[PropDef] = &[c04::DEF];
+    static ALL: &[PropDef] = &[c04::DEF, c05::DEF];
     ALL
 }
 
